@@ -541,6 +541,17 @@ func deriveTripCount(loop *Loop) {
 		return
 	}
 
+	// A step whose sign contradicts the direction of the test never reaches the limit (or the
+	// loop does not run at all): no closed form, whatever start and limit are.
+	if !isNEQ {
+		if stepOnly := iv.Step.EvaluateAt(nil, nil); stepOnly != nil {
+			if (isUpCounting && stepOnly.Sign() <= 0) || (!isUpCounting && stepOnly.Sign() >= 0) {
+				loop.TripCount = &SCEVUnknown{Value: nil}
+				return
+			}
+		}
+	}
+
 	zero := &SCEVConstant{Value: big.NewInt(0)}
 
 	// Verify Direction for Safety
